@@ -142,6 +142,10 @@ class Retry(Exception):
     pass
 
 
+class Cellify(Exception):
+    pass
+
+
 def _base(x):
     while isinstance(x, (ast.Subscript, ast.Attribute)):
         x = x.value
@@ -344,10 +348,13 @@ class Fn:
         self.pending = []        # raising sub-expressions hoisted in front of the statement
         self.suffix = ""         # appended to the locals of an inlined helper (no capture)
         self.frames = []         # return frames of the helpers being inlined
+        self.loop_k = []         # end-of-body continuations of the enclosing loops
         self.inlined = 0
 
     def lname(self, n):
-        return cname(n) + self.suffix
+        # locals are primed: no Python identifier contains a prime, so a local can never capture a
+        # Coq global (`cell`, `name`, `frame`, ...) or a function parameter
+        return n + "'" + self.suffix
 
     def raising(self):
         return self.frames[-1]["raising"] if self.frames else bool(self.cfg.get("raises"))
@@ -408,6 +415,8 @@ class Fn:
     def e_Name(self, e, env):
         if e.id in env:
             return env[e.id]
+        if e.id in self.cfg.get("consts", {}):      # a simple module-level constant: its value
+            return self.expr(self.cfg["consts"][e.id], {})
         raise Unsupported("unbound name " + e.id)
 
     def val(self, e, env, allow_res=False):
@@ -644,7 +653,16 @@ class Fn:
         need(ta == tb, "conditional expression of types %r / %r" % (ta, tb), e)
         return "(if %s then %s else %s)" % (c, a, b), ta
 
+    def fmt_term(self, text, arg, env, e):
+        i = self.nat(arg, env)
+        codes = "; ".join(str(ord(ch)) for ch in text)
+        return "(fstr [%s] %s)" % (codes, i), "name"
+
     def e_BinOp(self, e, env):
+        if isinstance(e.op, ast.Mod) and isinstance(e.left, ast.Constant) \
+                and isinstance(e.left.value, str) and e.left.value[-2:] in ("%d", "%s", "%i") \
+                and "%" not in e.left.value[:-2] and not isinstance(e.right, ast.Tuple):
+            return self.fmt_term(e.left.value[:-2], e.right, env, e)
         if isinstance(e.op, ast.Mult):
             a, ta = self.val(e.left, env)
             if ta == "names" and isinstance(e.left, ast.List) and len(e.left.elts) == 1:
@@ -666,9 +684,14 @@ class Fn:
              and isinstance(e.values[1], ast.FormattedValue)
              and e.values[1].conversion == -1 and e.values[1].format_spec is None,
              "f-string other than f'<text>{int}'", e)
-        i = self.nat(e.values[1].value, env)
-        codes = "; ".join(str(ord(ch)) for ch in e.values[0].value)
-        return "(fstr [%s] %s)" % (codes, i), "name"
+        return self.fmt_term(e.values[0].value, e.values[1].value, env, e)
+
+    def e_Tuple(self, e, env):
+        parts = [self.val(x, env) for x in e.elts]
+        need(len(parts) >= 2 and all(t is not None for t, _ in parts), "tuple of deferred values", e)
+        for _, ty in parts:
+            coqty(ty)
+        return "(%s)" % ", ".join(t for t, _ in parts), ("tuple", tuple(ty for _, ty in parts))
 
     def e_List(self, e, env):
         if len(e.elts) == 1 and isinstance(e.elts[0], ast.Starred):
@@ -733,8 +756,9 @@ class Fn:
             # [f(s) for s in (h(i) for i in it)]  ==  [f(h(i)) for i in it]; a generator is
             # exhausted by its first consumer
             need(isinstance(g.target, ast.Name), "target of a comprehension over a generator", e)
-            env[g.iter.id] = (None, ("consumed generator",))
-            _, pat, it, gb, gtb = gt
+            if len(gt) == 5:
+                env[g.iter.id] = (None, ("consumed generator",))
+            pat, it, gb, gtb = gt[1:5]
             env2 = dict(env)
             env2[g.target.id] = (gb, gtb)
         else:
@@ -743,6 +767,8 @@ class Fn:
         saved, self.pending = self.pending, None      # nothing may be hoisted out of the body
         b, tb = self.val(e.elt, env2, allow_res=True)
         self.pending = saved
+        if b is None and isinstance(tb, tuple) and not is_res(tb) and not is_static(tb):
+            return None, ("gen", pat, it, b, tb, "list")
         if is_res(tb):
             return "(rmapM (fun %s => %s) %s)" % (pat, b, it), ("res", ("list", tb[1]))
         return "(map (fun %s => %s) %s)" % (pat, b, it), lty(tb)
@@ -834,6 +860,8 @@ class Fn:
             a, ea = self.iterable(e.args[0], env)
             b, eb = self.iterable(e.args[1], env)
             return "(combine %s %s)" % (a, b), ("list", ("tuple", (ea, eb)))
+        if src == "list" and not e.args and not e.keywords:
+            return "[]", ("list", "?")
         if src == "range":
             need(len(e.args) == 1 and not e.keywords, "range arity", e)
             return "(py_range %s)" % self.nat(e.args[0], env), ("list", "nat")
@@ -923,14 +951,21 @@ class Fn:
             lv = self.expr(lst, env)[1]
             need(isinstance(lv, tuple) and lv[0] == "zlists", "from_product levels", e)
             nm = e.keywords[0].value
-            need(isinstance(nm, ast.List) and all(isinstance(x, ast.Name) and x.id in self.ignore
-                                                  for x in nm.elts), "from_product names", e)
+            need((isinstance(nm, ast.Name) and nm.id in self.ignore) or
+                 (isinstance(nm, ast.List) and all(isinstance(x, ast.Name) and x.id in self.ignore
+                                                   for x in nm.elts)), "from_product names", e)
             return "(mi_from_product2 %s %s)" % lv[1:], "keys"
         if isinstance(f, ast.Attribute):
             return self.method(e, env)
         raise Unsupported("call of " + src, e)
 
     def inline(self, e, fn, env):
+        try:
+            return self.inline1(e, fn, env, False)
+        except Cellify:
+            return self.inline1(e, fn, env, True)
+
+    def inline1(self, e, fn, env, cellify):
         """a call of another function of the module: its body, translated in place with the
         parameters bound to the (translated) arguments; locals get a fresh suffix"""
         need(len(self.frames) < 4, "helper calls nested too deeply", e)
@@ -949,7 +984,8 @@ class Fn:
                 need(p_ in defaults, "missing argument %s of %s" % (p_, fn.name), e)
                 env2[p_] = self.expr(defaults[p_], {})
         self.inlined += 1
-        frame = {"raising": self.has_raise(fn.body), "type": None, "name": fn.name}
+        frame = {"raising": self.has_raise(fn.body), "type": None, "name": fn.name,
+                 "cellify": cellify}
         need(not frame["raising"] or self.raising(), "raising helper in a total function", e)
         saved = (self.suffix, self.ignore, self.pending, self.label_stmts, self.sink_stmts)
         lab = [p_ for p_ in pnames if env2[p_][1] == "labels"]
@@ -973,7 +1009,10 @@ class Fn:
     def isinstance_(self, e, env):
         need(len(e.args) == 2 and not e.keywords, "isinstance arity", e)
         t, ty = self.expr(e.args[0], env)
-        tys = e.args[1].elts if isinstance(e.args[1], ast.Tuple) else [e.args[1]]
+        a1 = e.args[1]
+        if isinstance(a1, ast.Name) and a1.id not in env and a1.id in self.cfg.get("consts", {}):
+            a1 = self.cfg["consts"][a1.id]          # module-level constant tuple of types
+        tys = a1.elts if isinstance(a1, ast.Tuple) else [a1]
         names = [u(x) for x in tys]
         known = {"pd.Series": "TySeries", "np.ndarray": "TyNdarray", "pd.DataFrame": "TyDataFrame"}
         need(all(n in known for n in names), "isinstance against " + ", ".join(names), e)
@@ -1045,6 +1084,9 @@ class Fn:
         A = e.args
         kw = {k.arg: k.value for k in e.keywords}
         need(None not in kw, "** in a method call", e)
+        if m == "format" and isinstance(ty, tuple) and ty[0] == "str" and len(A) == 1 and not kw \
+                and ty[1].endswith("{}") and "{" not in ty[1][:-2]:
+            return self.fmt_term(ty[1][:-2], A[0], env, e)
         if m in METHOD_SIG and not (m == "count" and ty == "bools"):
             # positional and keyword forms of the same call are the same call
             sig, npos = METHOD_SIG[m]
@@ -1210,7 +1252,7 @@ class Fn:
         if not stmts:
             return False
         last = stmts[-1]
-        if isinstance(last, (ast.Return, ast.Raise)):
+        if isinstance(last, (ast.Return, ast.Raise, ast.Continue)):
             return True
         if isinstance(last, ast.If) and last.orelse:
             return self.terminal(last.body) and self.terminal(last.orelse)
@@ -1304,6 +1346,11 @@ class Fn:
                 t, ty = self.val(st.value, env)
                 if ty in (("list", "ncell"), ("list", "arr1"), ("list", "ser1")):
                     t, ty = self.coerce(t, ty, "ncells", "returned list of cells"), "ncells"
+                if fr.get("cellify") and ty in ("arr1", "ser1"):
+                    t = "(mk_cell %s %s)" % ("KArray" if ty == "arr1" else "KSeries", t)
+                    ty = "ncell"
+                if fr["type"] not in (None, ty) and {fr["type"], ty} <= {"arr1", "ser1", "ncell"}:
+                    raise Cellify()
                 need(fr["type"] in (None, ty), "helper %s returns %r and %r"
                      % (fr["name"], fr["type"], ty), st)
                 coqty(ty)
@@ -1311,6 +1358,13 @@ class Fn:
                 return pad + (("Ok %s" % t) if fr["raising"] else t)
             t, ty = self.val(st.value, env, allow_res=True)
             return pad + self.ret(t, ty, st)
+        if isinstance(st, ast.Continue):
+            # the rest of the loop body is skipped: allowed where the current continuation IS the
+            # end of the innermost loop body
+            need(not rest, "statements after continue", st)
+            need(self.loop_k and self.loop_k[-1] is not None and k is self.loop_k[-1],
+                 "continue inside a construct that joins values", st)
+            return k(env)
         if isinstance(st, ast.Raise):
             need(not rest, "statements after raise", st)
             need(self.raising(), "raise in a total function", st)
@@ -1463,7 +1517,8 @@ class Fn:
     def branches(self, c, env):
         """[(header text, env)] for the true and the false branch"""
         if c[0] == "bool":
-            return "if %s then" % c[1], "else", dict(env), dict(env), ""
+            ct = c[1] if c[1].startswith("(") else "(%s : bool)" % c[1]    # a bare variable
+            return "if %s then" % ct, "else", dict(env), dict(env), ""
         v = c[1]
         vn, vty = env[v]
         bn = self.lname(v)          # binder of the Some branch (vn may be an inlined argument)
@@ -1555,7 +1610,11 @@ class Fn:
                 self.pending = saved
                 ety2["ty"] = ty
                 return " " * (ind + 4) + t
-            body = self.seq(list(sbody[:-1]), env2, ke, ind + 4)
+            self.loop_k.append(None)        # no `continue` in a loop read as a comprehension
+            try:
+                body = self.seq(list(sbody[:-1]), env2, ke, ind + 4)
+            finally:
+                self.loop_k.pop()
             env4 = dict(env)
             env4[a] = (env[a][0], ("list", ety2["ty"]))
             env4[a] = (self.lname(a), lty(ety2["ty"]))
@@ -1571,7 +1630,11 @@ class Fn:
                 need(env3[n][1] == env[n][1] or env[n][1] == ("list", "?"),
                      "loop changes the type of %s" % n, st)
             return " " * (ind + 4) + self.tuple_val(acc, env3)
-        body = self.seq(list(sbody), env2, kk, ind + 4)
+        self.loop_k.append(kk)
+        try:
+            body = self.seq(list(sbody), env2, kk, ind + 4)
+        finally:
+            self.loop_k.pop()
         apat = self.tuple_pat(acc)
         env4 = dict(env)
         for n in acc:
@@ -1639,6 +1702,12 @@ def default_level_names(fn_node):
              and any(k.arg == "names" for k in n.keywords)]
     need(len(calls) == 1, "the from_product call naming the index levels")
     nm = [k.value for k in calls[0].keywords if k.arg == "names"][0]
+    if isinstance(nm, ast.Name):            # the list is built first and passed by name
+        defs = [n.value for n in ast.walk(fn_node) if isinstance(n, ast.Assign)
+                and len(n.targets) == 1 and isinstance(n.targets[0], ast.Name)
+                and n.targets[0].id == nm.id]
+        need(len(defs) == 1, "definition of the level names list", nm)
+        nm = defs[0]
     need(isinstance(nm, ast.List) and len(nm.elts) == 2, "level names list", nm)
 
     def when_none(v):
@@ -1682,6 +1751,26 @@ def translate(repo):
     with open(os.path.join(repo, SRC)) as f:
         mod = ast.parse(f.read())
     top = {n.name: n for n in mod.body if isinstance(n, ast.FunctionDef)}
+    # module-level constants: names assigned exactly once at module level (and nowhere rebound by
+    # `global`) to a literal / dotted name / tuple or list of these
+    def simple(v):
+        if isinstance(v, ast.Constant):
+            return True
+        if isinstance(v, (ast.Tuple, ast.List)):
+            return all(simple(x) for x in v.elts)
+        return isinstance(v, ast.Attribute) and isinstance(v.value, ast.Name)
+    counts, consts = {}, {}
+    for n in mod.body:
+        if isinstance(n, ast.Assign):
+            for t in n.targets:
+                for x in ast.walk(t):
+                    if isinstance(x, ast.Name):
+                        counts[x.id] = counts.get(x.id, 0) + 1
+            if len(n.targets) == 1 and isinstance(n.targets[0], ast.Name) and simple(n.value):
+                consts[n.targets[0].id] = n.value
+    globals_ = {x for n in ast.walk(mod) if isinstance(n, ast.Global) for x in n.names}
+    consts = {k: v for k, v in consts.items() if counts.get(k) == 1 and k not in globals_
+              and k not in top}
     notes, defs = [], []
     for cfg in FUNCS:
         if cfg["py"] not in top:
@@ -1689,6 +1778,7 @@ def translate(repo):
         cfg["node"] = top[cfg["py"]]
     for cfg in FUNCS:
         cfg["module"] = top
+        cfg["consts"] = consts
         try:
             defs.append(Fn(cfg["node"], cfg, notes).translate())
         except Unsupported as ex:
